@@ -57,6 +57,13 @@ def run(ctx):
     from .c05 import blockcfg_rule
     blockcfg_rule(ctx)
     codec_default_rule(ctx)
+    # a conforming file is read back value for value only if the reading primitives hand the decoder exactly the bytes of
+    # each value, whichever way the (decompressed) block reaches them - borrowed slice, buffered reader or the scratch
+    # copy of a value that straddles a refill (shared with C03 / C11)
+    from . import c11
+    c11.slice_rule(ctx)
+    c11.varint_rule(ctx)
+    c11.fixedbuf_rule(ctx)
     f = ctx.f
     # ---- MAGIC
     hc = f.consts.get(P + 'HEADER_CONST')
